@@ -25,6 +25,17 @@ func tryReplay(prop string, o *Obl, r *FuncReport, repo, verif string) (string, 
 	if r.Replay == "" || o.File == "" {
 		return "", false
 	}
+	if o.Status != "sat" {
+		// no model of the full query: try the candidate model of the weakened (quantifier-free) query
+		lite := strings.TrimSuffix(o.File, ".smt2") + ".lite.smt2"
+		if !o.LiteSat || !fileExists(lite) {
+			return "", false
+		}
+		oo := *o
+		oo.File, oo.Status, oo.Solver = lite, "sat", ""
+		out, ok := tryReplay(prop, &oo, r, repo, verif)
+		return "candidate counterexample from the weakened (quantifier-free) query:\n" + out, ok
+	}
 	vals, raw, err := witnessValues(o, r)
 	if err != nil {
 		return "witness extraction failed: " + err.Error() + "\n" + raw, false
@@ -43,7 +54,7 @@ func tryReplay(prop string, o *Obl, r *FuncReport, repo, verif string) (string, 
 	if err != nil {
 		return b.String() + "template error: " + err.Error(), false
 	}
-	data := map[string]string{"Obligation": o.Name, "Label": o.Label, "Kind": o.Kind, "Func": o.Func}
+	data := map[string]string{"Obligation": o.Name, "Label": o.Label, "Kind": o.Kind, "Func": o.Func, "Pkg": filepath.Base(r.PkgDir)}
 	for k, v := range vals {
 		data[k] = v
 	}
